@@ -25,7 +25,7 @@ ASSUMPTIONS = [
     "is judged only when both groups are non-empty (an empty second group makes the call a one-group call)",
     "a group member is 'a non-amino-acid' when it is not a one-letter code of the 20 standard residues in either case",
 ]
-REQUIRED = {"all": ["salted_objects", "omega_identity", "kappa_identity", "swap_pairs", "complement_pairs", "case_order_variants",
+REQUIRED = {"all": ["salted_objects", "very_unequal_groups_with_many_outside", "omega_identity", "kappa_identity", "swap_pairs", "complement_pairs", "case_order_variants",
                     "invalid_groups_rejected", "nontrivial_two_group", "omega_sequence_checked", "objects_with_phosphosites"]}
 NSEQ = {"quick": 350, "thorough": 3500}
 HI = {"quick": 80, "thorough": 200}
@@ -47,6 +47,17 @@ def cases(tier, seed):
             n = rng.randint(5, 9)
             core = "".join(rng.choice("QGSN") for _ in range(n))
             s = rng.choice("EDKRP") + core[: n // 2] + rng.choice(["", "", "P", "E"]) + core[n // 2:] + "".join(rng.choice("EDKRP") for _ in range(rng.randint(1, 2)))
+        if i >= len(fixed) and i % 8 == 3:
+            # one charge sign represented by 1-3 residues, the other by 8-25, and 18-40 (sometimes 8-17) residues outside both
+            minor, major = rng.randint(1, 3), rng.randint(8, 25)
+            z = rng.randint(18, 40) if rng.random() < 0.8 else rng.randint(8, 17)
+            pat = [1] * minor + [-1] * major + [0] * z
+            if rng.random() < 0.5:
+                pat = [-q for q in pat]
+            rng.shuffle(pat)
+            s = gen.spell(rng, pat)
+            yield {"s": s, "o": rng.randrange(1 << 30), "unequal": 1}
+            continue
         yield {"s": s, "o": rng.randrange(1 << 30)}
 
 
@@ -185,6 +196,14 @@ def judge(case, rep, S):
     rep.cnt("kappa_identity")
     if not agree(rep, k, k2):
         rep.viol("kappa_identity", "kappa=%r but kappa_X([E,D],[K,R])=%r for %s" % (k, k2, seq))
+    if case.get("unequal"):
+        rep.cnt("very_unequal_groups_with_many_outside")
+    if len(seq) <= 120 and not ref_agree(rep, k2, M.pattern(seq)):
+        rep.viol("kappa_x_reference", "kappa_X([E,D],[K,R])=%r on %s disagrees with the reference kappa of its charge pattern" % (k2, seq))
+    if len(seq) <= 120:
+        v_sw = obj.get_kappa_X(['K', 'R'], ['E', 'D'])
+        if not agree(rep, k2, v_sw):
+            rep.viol("swap", "kappa_X([E,D],[K,R])=%r but swapped=%r for %s" % (k2, v_sw, seq))
     # --- random partitions
     letters = list(M.AA)
     for rnd in range(4):
